@@ -352,6 +352,7 @@ def units(tier):
     wrap("C02.kinetics.reacted_moles_capped_at_amount_present", lambda twin=False: _rename(_TM.unit_reactant_nonnegative(twin), "C02.kinetics.reacted_moles_capped_at_amount_present"))
     from props import c02_mbspecies as MBS
     wrap("C02.mb_for_species.same_H_O_charge_coefficients_for_aq_ex_surf", MBS.unit_mb_for_species)
+    wrap("C02.mb_for_species.element_coefficient_is_atoms_x_master_coefficient", MBS.unit_mb_element_coefficients)
     from props import c02_dispatch as DP
     wrap("C02.step.element_dispatch_adds_the_same_amount_to_exactly_one_accumulator", DP.unit_dispatch)
     from props import c02_reset as RS
